@@ -97,6 +97,23 @@ Theorem C19_cmp_varint_unfixed_refuted :
 Proof. exact decode_cmp_varint_unfixed_refuted. Qed.
 Print Assumptions C19_cmp_varint_unfixed_refuted.
 
+(* --- the exported sign-flip pair EncodeIntToCmpUint / DecodeCmpUintToInt: an order isomorphism int64 <-> uint64 --- *)
+Theorem C19_cmpuint_roundtrip : forall v, int64_range v -> int_to_cmp v < two64 /\ cmp_to_int (int_to_cmp v) = v.
+Proof. exact cmpuint_roundtrip. Qed.
+Print Assumptions C19_cmpuint_roundtrip.
+Theorem C19_cmpuint_inverse : forall u, u < two64 -> int64_range (cmp_to_int u) /\ int_to_cmp (cmp_to_int u) = u.
+Proof. exact cmpuint_inverse. Qed.
+Print Assumptions C19_cmpuint_inverse.
+Theorem C19_cmpuint_order : forall a b, int64_range a -> int64_range b -> N.compare (int_to_cmp a) (int_to_cmp b) = Z.compare a b.
+Proof. exact int_to_cmp_cmp. Qed.
+Print Assumptions C19_cmpuint_order.
+Theorem C19_cmpuint_decode_order : forall a b, a < two64 -> b < two64 -> Z.compare (cmp_to_int a) (cmp_to_int b) = N.compare a b.
+Proof. exact cmp_to_int_cmp. Qed.
+Print Assumptions C19_cmpuint_decode_order.
+Theorem C19_int_is_uint_of_cmpuint : forall v, encode_int v = encode_uint (int_to_cmp v) /\ encode_int_desc v = encode_uint_desc (int_to_cmp v).
+Proof. exact encode_int_is_uint. Qed.
+Print Assumptions C19_int_is_uint_of_cmpuint.
+
 (* non-vacuity: hypotheses are met by concrete non-trivial values *)
 Example C19_nonvacuous :
   int64_range (-9223372036854775808)%Z /\ 18446744073709551615 < two64 /\
